@@ -54,6 +54,10 @@ pub struct ImportStmt {
     pub id: u32,
     /// for the nested forms: the root module R whose export `sub` is module `target`
     pub via: usize,
+    /// the statement is written in BOTH branches of an `if` whose condition is false: the one in
+    /// the else branch runs (the same names are import targets twice in one scope, the first
+    /// occurrence is never executed)
+    pub in_else: bool,
 }
 
 #[derive(Clone, Debug)]
@@ -78,6 +82,11 @@ pub enum Step {
     TopLoopAdd(u32, u32),
     /// `export sub = mX` (after an `import mX`): a module-valued export
     ExportSub(usize),
+    /// a use of the fixture module `mz` (see `FIXTURE_MODULE`), host scripts only; kind 0: an
+    /// item named like the module imported before another item, 1: an export named like a core
+    /// library item read as a non-local by the module's own function, 2: a renamed item followed
+    /// by plain ones in one `from … import`
+    Fixture(u32, u8),
     /// read another module's canary export by its bare name: visible only through a wildcard
     /// import of exactly that module (or in that module itself)
     ReadCanary(u32, usize),
@@ -161,6 +170,15 @@ fn helper_def(m: usize) -> ModuleDef {
     }
 }
 
+/// A module outside the generated graph (never wildcard-imported, never part of a cycle): its
+/// exports collide on purpose — with its own name and with names of the core library
+pub const FIXTURE_MODULE: (&str, &str) = (
+    "mz.koto",
+    "rd = || (size, type, string, list)\nexport size = 41\nexport type = 42\nexport string = 43\nexport list = 44\nexport mz = 5\nexport ez_1 = 6\nexport ez_2 = 7\nexport ez_3 = 8\nexport rdv = rd()\n",
+);
+/// what `Step::Fixture` records, by kind
+pub const FIXTURE_VALUES: &[&str] = &["6", "(41, 42, 43, 44)", "60708"];
+
 fn mname(i: usize) -> String {
     format!("m{}", (b'a' + i as u8) as char)
 }
@@ -237,15 +255,28 @@ fn render_import(out: &mut Vec<String>, indent: usize, s: &ImportStmt, exported_
             lines.push(format!("val({}, 0)", s.id));
         }
     }
+    let mut body = vec![];
     if s.in_try {
-        out.push(format!("{pad}try"));
+        body.push("try".to_string());
         for l in lines {
+            body.push(format!("  {l}"));
+        }
+        body.push("catch e".to_string());
+        body.push(format!("  caught({}, e)", s.id));
+    } else {
+        body = lines;
+    }
+    if s.in_else {
+        out.push(format!("{pad}if 0 > 1"));
+        for l in &body {
             out.push(format!("{pad}  {l}"));
         }
-        out.push(format!("{pad}catch e"));
-        out.push(format!("{pad}  caught({}, e)", s.id));
+        out.push(format!("{pad}else"));
+        for l in &body {
+            out.push(format!("{pad}  {l}"));
+        }
     } else {
-        for l in lines {
+        for l in body {
             out.push(format!("{pad}{l}"));
         }
     }
@@ -281,6 +312,25 @@ fn render_steps(out: &mut Vec<String>, indent: usize, steps: &[Step], module: us
                 out.push(format!("{pad}  t{k} += 1"));
             }
             Step::ExportSub(t) => out.push(format!("{pad}export sub = {}", mname(*t))),
+            Step::Fixture(id, kind) => match kind {
+                0 => {
+                    out.push(format!("{pad}fs{id} = ||"));
+                    out.push(format!("{pad}  import mz"));
+                    out.push(format!("{pad}  from mz import mz, ez_1"));
+                    out.push(format!("{pad}  return ez_1"));
+                    out.push(format!("{pad}val({id}, fs{id}())"));
+                }
+                1 => {
+                    out.push(format!("{pad}import mz as qz{id}"));
+                    out.push(format!("{pad}val({id}, qz{id}.rdv)"));
+                }
+                _ => {
+                    out.push(format!("{pad}fm{id} = ||"));
+                    out.push(format!("{pad}  from mz import ez_1 as qz{id}, ez_2, ez_3"));
+                    out.push(format!("{pad}  return qz{id} * 10000 + ez_2 * 100 + ez_3"));
+                    out.push(format!("{pad}val({id}, fm{id}())"));
+                }
+            },
             Step::ReadCanary(id, r) => {
                 out.push(format!("{pad}c{id} = try"));
                 out.push(format!("{pad}  {}", ename(*r, 9)));
@@ -365,6 +415,7 @@ pub fn write_world(w: &World, scratch: &Scratch) {
     scratch.clear();
     ensure_link(scratch);
     std::fs::write(scratch.dir.join("main.koto"), "# importing script\n").expect("write");
+    std::fs::write(scratch.dir.join(FIXTURE_MODULE.0), FIXTURE_MODULE.1).expect("write");
     for i in 0..w.modules.len() {
         write_module(w, i, w.disk[i], scratch);
     }
@@ -465,18 +516,20 @@ pub fn gen_scenario(seed: u64) -> Scenario {
                 in_try: r.chance(1, 5),
                 id: id(),
                 via: 0,
+                in_else: false,
             }));
         }
         top.push(Step::Export(1, 10 * (m as i64 + 1) + 1));
         // the canary: never imported by name, only reachable through a wildcard import
         top.push(Step::Export(9, 900 + m as i64));
+
         if r.chance(1, 3) {
             top.push(Step::Reassign(1, 777));
         }
         // a module-valued export (for nested import paths): `import mX` + `export sub = mX`
         if m + 1 < n && r.chance(1, 3) {
             let t = m + 1 + r.usize_below(n - m - 1);
-            top.push(Step::Import(ImportStmt { target: t, form: Form::Plain, in_try: false, id: id(), via: 0 }));
+            top.push(Step::Import(ImportStmt { target: t, form: Form::Plain, in_try: false, id: id(), via: 0, in_else: false }));
             top.push(Step::ExportSub(t));
         }
         if r.chance(1, 4) {
@@ -519,6 +572,7 @@ pub fn gen_scenario(seed: u64) -> Scenario {
                     in_try: r.chance(1, 4),
                     id: id(),
                     via: 0,
+                    in_else: false,
                 }));
             }
         }
@@ -579,7 +633,7 @@ pub fn gen_scenario(seed: u64) -> Scenario {
             let at = 1 + r.usize_below(modules[m].top.len());
             modules[m].top.insert(
                 at,
-                Step::Import(ImportStmt { target: m, form: Form::HelperInside, in_try: false, id: id(), via: 0 }),
+                Step::Import(ImportStmt { target: m, form: Form::HelperInside, in_try: false, id: id(), via: 0, in_else: false }),
             );
         }
     }
@@ -601,7 +655,11 @@ pub fn gen_scenario(seed: u64) -> Scenario {
                 let mut from_item_targets: Vec<usize> = vec![];
                 for _ in 0..nimp {
                     let target = r.usize_below(n);
-                    let mut form = if r.chance(1, 10) { Form::MissingItem } else { *r.pick(&forms) };
+                    let mut form = if r.chance(1, 10) {
+                        Form::MissingItem
+                    } else {
+                        *r.pick(&forms)
+                    };
                     // `from m import item` declares a local named `item` (even when the import
                     // fails); a later `from m import *` in the same scope is shadowed by it.
                     // That is the language's scoping rule, not the module system: avoid it.
@@ -617,6 +675,7 @@ pub fn gen_scenario(seed: u64) -> Scenario {
                         in_try: r.chance(2, 5),
                         id: id(),
                         via: 0,
+                        in_else: r.chance(1, 6),
                     };
                     // nested import paths through a module-valued export
                     if r.chance(1, 4) {
@@ -670,6 +729,10 @@ pub fn gen_scenario(seed: u64) -> Scenario {
                 for _ in 0..r.below(3) {
                     let at = 1 + r.usize_below(top.len());
                     top.insert(at, Step::ReadCanary(id(), r.usize_below(n)));
+                }
+                if r.chance(1, 4) {
+                    let at = 1 + r.usize_below(top.len());
+                    top.insert(at, Step::Fixture(id(), r.below(3) as u8));
                 }
                 if export_top_level {
                     top.push(Step::TopAssign(1, 5));
@@ -1027,6 +1090,9 @@ impl ModelState {
                 Step::Throw(n) => return Err(ErrClass::Exact(format!("F{n}"))),
                 Step::ExportLazy(i) => {
                     self.lazies.insert(i.id, i.clone());
+                }
+                Step::Fixture(id, kind) => {
+                    cx.out.vals.push((*id, FIXTURE_VALUES[*kind as usize].to_string()));
                 }
                 Step::TopAssign(k, v) if cx.export_top_level => {
                     let name = format!("t{k}");
@@ -1569,7 +1635,37 @@ pub fn evaluate(sc: &Scenario, scratch: &Scratch, clock: &Rc<VClock>) -> Eval {
 pub fn shrink(sc: &Scenario, class: &str, scratch: &Scratch, clock: &Rc<VClock>) -> (Scenario, usize) {
     let mut best = sc.clone();
     let mut steps = 0;
+    // a candidate must still be a well-formed scenario: what a later step relies on stays
+    fn steps_valid(steps: &[Step]) -> bool {
+        for (i, s) in steps.iter().enumerate() {
+            let before = &steps[..i];
+            let ok = match s {
+                Step::TopAddAssign(k, _) | Step::TopLoopAdd(k, _) => {
+                    before.iter().any(|b| matches!(b, Step::TopAssign(kk, _) if kk == k))
+                }
+                Step::ExportSub(t) => before.iter().any(|b| {
+                    matches!(b, Step::Import(i) if i.target == *t && i.form == Form::Plain && !i.in_try && !i.in_else)
+                }),
+                Step::Reassign(k, _) => before.iter().any(|b| matches!(b, Step::Export(kk, _) if kk == k)),
+                _ => true,
+            };
+            if !ok {
+                return false;
+            }
+        }
+        true
+    }
+    let well_formed = |c: &Scenario| -> bool {
+        c.world.modules.iter().all(|m| steps_valid(&m.top))
+            && c.ops.iter().all(|o| match o {
+                HostOp::Run { script, .. } => steps_valid(&script.top),
+                _ => true,
+            })
+    };
     let still = |c: &Scenario| -> bool {
+        if !well_formed(c) {
+            return false;
+        }
         let e = evaluate(c, scratch, clock);
         e.harness_error.is_none() && e.violation.as_ref().is_some_and(|v| v.class == class)
     };
@@ -1748,6 +1844,7 @@ pub fn replay(doc: &Value) -> (Option<(String, String)>, u64) {
     let clock = host::install_clock();
     scratch.clear();
     std::fs::write(scratch.dir.join("main.koto"), "# importing script\n").expect("write");
+    std::fs::write(scratch.dir.join(FIXTURE_MODULE.0), FIXTURE_MODULE.1).expect("write");
     let write_file = |f: &Value| {
         let name = f["module"].as_str().unwrap_or("");
         let text = f["text"].as_str().unwrap_or("");
